@@ -3,13 +3,23 @@ import struct
 
 
 class Builder:
-    def __init__(self):
+    def __init__(self, strings="nul"):
+        """strings: how names are laid out in the string block - 'nul' (each NUL-terminated), 'packed' (back to back, no terminators:
+        the stored length delimits a name) or 'shared' (a name is stored as the prefix of a longer string that another name may use)"""
         self.strs = b""
         self.blobs = b""
+        self.mode = strings
 
     def S(self, s):
+        if self.mode == "shared":
+            at = self.strs.find(s)
+            if at >= 0 and s:
+                return at, len(s)
+            o = len(self.strs)
+            self.strs += s + b"Normal_" + s[:3] + b"\0"
+            return o, len(s)
         o = len(self.strs)
-        self.strs += s + b"\0"
+        self.strs += s + (b"" if self.mode == "packed" else b"\0")
         return o, len(s)
 
     def param(self, p):
@@ -26,10 +36,10 @@ class Builder:
         return b
 
 
-def build(p, slack=0):
+def build(p, slack=0, strings="nul"):
     """p: dict(dx b'DX11'|b'DX9\\0', version, vs[], ps[], mat_params[(id, off, size)], mat_size, defaults[f32 bits] or None, scalars[], samplers[], textures[], uavs[],
     sys_keys[(id, def)], scene_keys, mat_keys, sub1, sub2, nodes[dict(selector, passes[(id, vs, ps)], idx bytes16, sys[], scene[], mat[], sub[2])], aliases[(sel, node)])"""
-    B = Builder()
+    B = Builder(strings)
     body = b"".join(B.shader(s, True) for s in p["vs"]) + b"".join(B.shader(s, False) for s in p["ps"])
     body += b"".join(struct.pack("<IHH", *m) for m in p["mat_params"])
     if p["defaults"] is not None:
